@@ -7,6 +7,14 @@ R: the error text of RunContext; the positions after each 'at' are converted to 
    and of the statements containing each active call, innermost first.  Extents come from
    the harness's own printer.  The twin compiled without dead-code elimination must
    report the same positions; sentinel errors must stay recognisable by errors.Is.
+
+E2: SourcePos.tla - the file set every reported location goes through (disjoint position ranges per
+   file, line tables, the LastFile cache in front of the binary search) as a state machine, with the
+   invariants: the lookup computes the declarative meaning of a position whatever the cache holds,
+   ranges disjoint, positions ordered like (line, column), line starts are column 1.
+R2: one witness history per (state, mutating call) edge replayed on a real parser.SourceFileSet,
+   then every query of the spec's answer table asked in several orders (every ordered pair of
+   positions: the first lookup loads the cache).
 """
 import json
 
@@ -214,6 +222,7 @@ def run(ck):
         else:
             ck.traces += 1
     ck.extra["errpos_cases"] = len(ep)
+    srcpos(ck, quick)
     ck.extra["errpos_alloc_limit_errors"] = nlim
     # sentinel errors stay recognisable: the harness classifies them with errors.Is first
     ck.extra.update({"failing_programs_validated": nerr, "error_kinds": kinds, "call_depth_histogram": depth})
@@ -222,8 +231,64 @@ def run(ck):
     ck.assumptions = ["statement extents come from the harness's printer", "error classes are read with errors.Is / fixed message prefixes"]
 
 
+SRCPOS_CFG = """SPECIFICATION %s
+CONSTANTS
+  MaxFiles = %d
+  MaxSize = %d
+  MaxLen = %d
+VIEW View
+CONSTRAINT Bounded
+%s
+INVARIANTS Disjoint LinesSorted LookupRight CacheTransparent Ordered LineStarts Valid
+"""
+
+
+def srcpos(ck, quick):
+    # (1) the full machine, queries included: the cache states that lookups can leave behind
+    mf, ms, ml = (3, 2, 5) if quick else (3, 3, 7)
+    r = ck.tlc("SourcePos", SRCPOS_CFG % ("Spec", mf, ms, ml, ""), workers=4, name="srcpos-mc", timeout=3000, xmx="8g")
+    if r.violated:
+        raise vlib.Infra("SourcePos.tla violates %s:\n%s" % (r.violated, r.stdout[-2000:]))
+    # (2) witness histories of the mutating calls with the answer table of the state reached
+    mf, ms, ml = (3, 2, 5) if quick else (3, 4, 6)
+    r2 = ck.tlc("SourcePos", SRCPOS_CFG % ("SpecMut", mf, ms, ml, "ACTION_CONSTRAINT EmitEdge"), workers=1, name="srcpos-emit", timeout=3000, xmx="8g")
+    if r2.violated:
+        raise vlib.Infra("SourcePos.tla violates %s" % r2.violated)
+    cases = r2.tagged("CASE")
+    for i, c in enumerate(cases):
+        c["id"] = i
+    ck.log("SourcePos.tla: %d states with queries, %d mutating edges with answer tables" % (r.distinct, len(cases)))
+    res = vlib.run_cases(ck, "srcpos", cases, nproc=12)
+    nq = 0
+    for c in cases:
+        o = res[c["id"]]
+        ck.evaluations += 1
+        if o.get("hang") or o.get("died") or o.get("panic"):
+            ck.violation("srcpos-down", "file-set history did not return / panicked: %s %s" % (json.dumps(c["calls"])[:400], str(o)[:300]), {"srcpos": c, "real": o})
+            continue
+        if o.get("error"):
+            raise vlib.Infra("srcpos driver: %s" % o["error"])
+        if not o["ok"]:
+            ck.violation("srcpos:" + o["what"].split("(")[0].split(".")[-1],
+                         "%s gives %s, SourcePos.tla says %s; history: %s" % (
+                             o["what"], json.dumps(o["got"]), json.dumps(o["want"]),
+                             " ".join("%s%s" % (x["op"], json.dumps(x["args"])) for x in c["calls"]))[:900],
+                         {"srcpos": c, "real": o})
+            continue
+        ck.traces += 1
+        nq += o.get("queries", 0)
+        ck.note_distinct("srcpos/" + json.dumps(c["calls"]))
+    ck.extra["srcpos_histories"] = len(cases)
+    ck.extra["srcpos_queries"] = nq
+
+
 def replay(ck, path):
     rep = json.load(open(path))["replay"]
+    if "srcpos" in rep:
+        c = rep["srcpos"]
+        c["id"] = 0
+        print(json.dumps(vlib.run_cases(ck, "srcpos", [c], nproc=1)[0], indent=1))
+        return 0
     print(rep["program"]["src"])
     print(json.dumps(rep.get("real") or rep.get("opt"), indent=1)[:2000])
     return 0
